@@ -87,6 +87,34 @@ func genC02(seed uint64, tier string) *plan.Plan {
 		}
 		work.Clients = append(work.Clients, sc)
 	}
+	// Sweeper (a third of the runs): the network is slow, so re-replication after the stop (backup
+	// fragments travelling to their new owners) takes tenths of a second, and one client keeps
+	// deleting its own keys one by one all the while: a Delete acknowledged while the key's fragment
+	// is in flight must still read not-found once the cluster has settled.
+	nsweep := 0
+	if r.Bool(330) {
+		p.Net.MinLatUs, p.Net.MaxLatUs = 3000, int64(Pick(r, 15000, 40000))
+		if p.Cluster.ClientReadTimeoutMs < 1000 {
+			p.Cluster.ClientReadTimeoutMs = 1000
+		}
+		p.Yield = plan.YieldSpec{}
+		// few partitions: a Delete meets the fragment that is in flight with probability 1/partitions
+		p.Cluster.Partitions = uint64(max(n, 7))
+		per := r.Range(100, 200)
+		gap := int64(Pick(r, 5000, 15000, 30000))
+		for s := 0; s < 4; s++ {
+			ls := plan.Script{ID: 25 + s, Kind: "ctl"}
+			sw := plan.Script{ID: 25 + s, Kind: "ctl"}
+			for i := 0; i < per; i++ {
+				k := fmt.Sprintf("d%d", nsweep)
+				nsweep++
+				ls.Ops = append(ls.Ops, plan.Op{K: "put", Key: k, Val: "d", Tag: "cc"})
+				sw.Ops = append(sw.Ops, plan.Op{K: "del", Key: k, Tag: Pick(r, "cc", "cc", "emb"), M: safe(), D: gap})
+			}
+			load.Clients = append(load.Clients, ls)
+			work.Clients = append(work.Clients, sw)
+		}
+	}
 	ctl := plan.Script{ID: 30, Kind: "ctl"}
 	sig := ""
 	for f := 0; f < nfail; f++ {
@@ -127,6 +155,9 @@ func genC02(seed uint64, tier string) *plan.Plan {
 	for k := 0; k < nkeys; k++ {
 		vs.Ops = append(vs.Ops, plan.Op{K: "ctl.get_all", Key: fmt.Sprintf("k%d", k)})
 	}
+	for k := 0; k < nsweep; k++ {
+		vs.Ops = append(vs.Ops, plan.Op{K: "ctl.get_all", Key: fmt.Sprintf("d%d", k)})
+	}
 	ver.Clients = []plan.Script{vs}
 	// phase 4: healthy behaviour afterwards
 	post := plan.Phase{Name: "post"}
@@ -148,6 +179,9 @@ func genC02(seed uint64, tier string) *plan.Plan {
 	post.Clients = []plan.Script{ps}
 	p.Phases = []plan.Phase{load, work, st, ver, post}
 	p.Variant = fmt.Sprintf("R%d/N%d/%s", R, n, sig)
+	if nsweep > 0 {
+		p.Variant += "sweep"
+	}
 	return p
 }
 
